@@ -16,8 +16,19 @@ async def party_main(world, p, prog, case):
     T = make_type(rt, prog['type'])
     m = len(rt.parties)
     env_ = {}
+    now = {}
     for opn, out, args, pr in prog['stmts']:
-        a = [env_[v] for v in args]
+        a = [env_[v] for v in args if v in env_]
+        if opn == 'quiesce':
+            import asyncio
+            dt = pr['T'] - rt._loop.time()
+            if dt > 0:
+                await asyncio.sleep(dt)
+            continue
+        if opn == 'output_now':
+            recv_ = sorted({r % m for r in pr['receivers']})
+            now[out] = await rt.output(a[0], receivers=recv_)
+            continue
         if opn == 'input':
             s = pr['sender'] % m
             v = pr['value'] if rt.pid == s else pr['dummy']
@@ -59,7 +70,7 @@ async def party_main(world, p, prog, case):
     outs = []
     for v in prog['outputs']:
         outs.append(await rt.output(env_[v], receivers=recv))
-    return {'out': outs}
+    return {'out': outs, 'now': now}
 
 
 def absmax(iv):
@@ -89,6 +100,8 @@ def reference(prog):
     u = Fr(1, 1 << (prog['type']['s'] - 1))
     env_ = {}
     for opn, out, args, pr in prog['stmts']:
+        if opn in ('quiesce', 'output_now'):
+            continue
         a = [env_[v] for v in args]
         if opn in ('input', 'const'):
             x = Fr(pr['value'])
@@ -184,8 +197,22 @@ def judge(fam, case, cfg, w, res):
     pr = res.info.setdefault('probes', {})
     for st in prog['stmts']:
         pr['flt_' + st[0]] = pr.get('flt_' + st[0], 0) + 1
-    if recv is not None and len(R) < m:
-        pr['flt_partial_receivers'] = 1
+    # mid-program outputs to a subset (C19): receivers got the value, the others None
+    for st in prog['stmts']:
+        if st[0] == 'output_now':
+            Rw = {r % m for r in st[3]['receivers']}
+            iv = env_[st[2][0]]
+            for p in w.parties:
+                if p.result is None:
+                    continue
+                g = p.result.get('now', {}).get(st[1])
+                if p.pid in Rw:
+                    if g is None or not (iv[0] <= Fr(g) <= iv[1]):
+                        res.violations.append(('wrong-value', f'party {p.pid}: output to subset gave {g!r}, allowed [{float(iv[0])!r}, {float(iv[1])!r}]'))
+                        return
+                elif g is not None:
+                    res.violations.append(('wrong-value', f'party {p.pid} is no receiver but got {g!r}'))
+                    return
 
 
 # ------------------------------------------------------------------ generator
